@@ -12,7 +12,7 @@ for D in /verif/seeded/*/; do
   P=$(jq -r '.breaks // .property' "$D/meta.json")
   if ! git apply --check "$D/patch.diff" 2>/dev/null; then echo "$ID $P PATCH-DOES-NOT-APPLY" | tee -a "$OUT"; continue; fi
   git apply "$D/patch.diff"
-  RES=$(cd /verif && ./check.sh "$P" "$T" 2>&1 | grep -aE "^(VIOLATION|MACHINERY|RESULT|  key)" | cut -c1-260)
+  RES=$(cd /verif && VERIF_EVIDENCE_DIR=/tmp/verif-mutant-evidence ./check.sh "$P" "$T" 2>&1 | grep -aE "^(VIOLATION|MACHINERY|RESULT|  key)" | cut -c1-260)
   git checkout -- .
   if echo "$RES" | grep -q "^VIOLATION"; then V=DETECTED; elif echo "$RES" | grep -q "^MACHINERY"; then V=MACHINERY; else V=MISSED; fi
   KEYS=$(echo "$RES" | grep -a "^  key" | head -3 | sed 's/ what=.*//' | tr '\n' ' ')
